@@ -5,7 +5,7 @@ from harness.core import *
 from harness import gens
 
 MODELLED = {"cityblock": "Cityblock", "euclidean": "Euclidean", "sqeuclidean": "SqEuclidean", "chebyshev": "Chebyshev"}
-OTHER = ["canberra", "braycurtis", "minkowski"]
+OTHER = ["canberra", "braycurtis", "minkowski", "seuclidean", "mahalanobis", "cosine", "correlation", "hamming"]
 
 
 def ref_spacing(F, metric):
@@ -18,7 +18,19 @@ def ref_spacing(F, metric):
         if metric == "chebyshev": return max(abs(x - y) for x, y in zip(a, b))
         return None
     d = []
-    for i in range(n):
+    if metric not in MODELLED:
+        # any metric accepted by scipy's pdist: the pairwise distances of THESE points as pdist defines them (data-dependent parameters included)
+        from scipy.spatial.distance import pdist, squareform
+        try:
+            with np.errstate(all="ignore"):
+                D = squareform(pdist(np.array(F, dtype=float), metric=metric))
+        except Exception:
+            return None
+        if not np.all(np.isfinite(D)):
+            return None
+        for i in range(n):
+            d.append(min(D[i, j] for j in range(n) if j != i))
+    for i in range(n if metric in MODELLED else 0):
         vals = [dist(F[i], F[j]) for j in range(n) if j != i]
         if vals[0] is None:
             return None
@@ -42,9 +54,13 @@ def gen_case(rng, max_n=40):
         F = [list(base[rng.randrange(len(base))]) for _ in range(N)]
     else:
         F = [[float(i)] + [float(N - i)] * (M - 1) for i in range(N)]
-    metric = rng.choice(["cityblock", "cityblock", "euclidean", "sqeuclidean", "chebyshev"] + OTHER[:1])
+    metric = rng.choice(["cityblock", "cityblock", "cityblock", "euclidean", "euclidean", "sqeuclidean", "chebyshev", "chebyshev"] + OTHER)
     norm = rng.choice(["none", "none", "ideal-nadir", "pf", "pf+ideal"])
+    if metric == "mahalanobis" and not (norm == "none" and style == "cont" and N >= M + 3):
+        metric = "seuclidean"          # a covariance matrix needs enough points in general position
     case = {"F": F, "metric": metric, "norm": norm, "style": style, "seed": rng.randrange(2 ** 31)}
+    if rng.random() < 0.4:
+        case["prime"] = True
     A = np.array(F, dtype=float)
     if norm != "none":
         lo = A.min(axis=0) - rng.choice([0.0, 0.5, 1.0]); hi = A.max(axis=0) + rng.choice([0.0, 0.5, 2.0])
@@ -73,19 +89,24 @@ def make_indicator(case):
     return SpacingIndicator(**kw)
 
 
+def prime(case, F):
+    """other indicator objects, configured differently, have been applied to the very same points before"""
+    if not case.get("prime"):
+        return
+    for kw in ({"metric": "chebyshev" if case["metric"] != "chebyshev" else "euclidean"}, {"metric": case["metric"], "zero_to_one": case["norm"] == "none"}):
+        try:
+            from pymoode.performance._spacing import SpacingIndicator
+            SpacingIndicator(**kw).do(F)
+        except Exception:
+            pass
+
+
 def run_case(case):
     import pymoode.performance._spacing as sp
     F = np.array(case["F"], dtype=float); F0 = F.copy()
-    seen = {}
-    orig = sp.pdist
-
-    def pdist(Xin, *a, **k):
-        out = orig(Xin, *a, **k)
-        seen["X"] = np.array(Xin, dtype=float).copy(); seen["D"] = np.array(out, dtype=float).copy()
-        return out
-    sp.pdist = pdist
     try:
         with np.errstate(all="ignore"):
+            prime(case, F)
             ind = make_indicator(case)
             S = float(ind.do(F))
             # invariances on the implementation
@@ -102,7 +123,7 @@ def run_case(case):
             S_reused = float(ind2.do(buf))
             S_fresh = float(make_indicator(case).do(buf.copy()))
     finally:
-        sp.pdist = orig
+        pass
     from scipy.spatial.distance import squareform
     ideal = None if ind.ideal is None else np.asarray(ind.ideal, dtype=float).tolist()
     nadir = None if ind.nadir is None else np.asarray(ind.nadir, dtype=float).tolist()
@@ -113,26 +134,42 @@ def run_case(case):
 
 
 def run_first(case):
-    """the first call only (for the model): normalised input of pdist, distance matrix, value"""
+    """the first call only (for the model): normalised points, distance matrix, value.  The points and the matrix are taken from the
+    implementation's own call of scipy's pdist (or cdist) when it makes one; otherwise they are recomputed from the normalisation object"""
     import pymoode.performance._spacing as sp
-    from scipy.spatial.distance import squareform
+    from scipy.spatial.distance import squareform, pdist as sp_pdist
     F = np.array(case["F"], dtype=float)
     seen = {}
-    orig = sp.pdist
+    origs = {nm: getattr(sp, nm) for nm in ("pdist", "cdist") if hasattr(sp, nm)}
 
-    def pdist(Xin, *a, **k):
-        out = orig(Xin, *a, **k)
-        seen.setdefault("X", np.array(Xin, dtype=float).copy()); seen.setdefault("D", np.array(out, dtype=float).copy())
-        return out
-    sp.pdist = pdist
+    def wrap(nm):
+        def f(Xin, *a, **k):
+            out = origs[nm](Xin, *a, **k)
+            seen.setdefault("X", np.array(Xin, dtype=float).copy())
+            o = np.array(out, dtype=float)
+            seen.setdefault("D", squareform(o) if o.ndim == 1 else o.copy())
+            return out
+        return f
+    for nm in origs:
+        setattr(sp, nm, wrap(nm))
     try:
         with np.errstate(all="ignore"):
+            prime(case, F)
+            seen.clear()
             ind = make_indicator(case); S = float(ind.do(F))
     finally:
-        sp.pdist = orig
+        for nm, f in origs.items():
+            setattr(sp, nm, f)
     nz = ind.normalization
     xl = getattr(nz, "xl", None); xu = getattr(nz, "xu", None)
-    return {"Xn": enc(seen["X"]), "D": enc(squareform(seen["D"])), "S0": float(S).hex(),
+    if "X" not in seen:
+        with np.errstate(all="ignore"):
+            Xn = np.asarray(nz.forward(F.copy()), dtype=float) if nz is not None else F.copy()
+            seen["X"] = Xn; seen["D"] = squareform(sp_pdist(Xn, metric=case["metric"]))
+    D = np.array(seen["D"], dtype=float)
+    if D.shape[0] == D.shape[1]:
+        D = D.copy(); np.fill_diagonal(D, 0.0)
+    return {"Xn": enc(seen["X"]), "D": enc(D), "S0": float(S).hex(),
             "ideal": None if xl is None else enc(np.asarray(xl, dtype=float)),
             "nadir": None if xu is None else enc(np.asarray(xu, dtype=float))}
 
@@ -143,7 +180,7 @@ class C20(Check):
     RULE = ("SpacingIndicator(metric, pf, zero_to_one, ideal, nadir).do(F) on point sets of 2..40 points (quick) / 2..150 (thorough), 1..5 objectives, grid-valued, continuous, "
             "with duplicates, equally spaced, with ranges that are tiny relative to the objective's magnitude; metrics cityblock / euclidean / sqeuclidean / chebyshev (pdist modelled) and canberra (distance matrix as oracle); normalisation "
             "off / ideal+nadir / derived from a Pareto front / mixed, with ideal = nadir in one dimension; compared bit-for-bit with the model (normalisation, distance matrix, "
-            "second-smallest entry, NumPy pairwise summation, sqrt); independent formula, permutation / translation / scaling checks on the implementation; one indicator object called twice with the same array object whose contents changed in between; "
+            "second-smallest entry, NumPy pairwise summation, sqrt); independent formula, permutation / translation / scaling checks on the implementation; one indicator object called twice with the same array object whose contents changed in between; in 40% of the cases differently configured indicator objects have been applied to the same points before; "
             "non-trivial = at least 3 points; distinct by hash")
     ASSUMPTIONS = ["theorems are about the radicand in exact rational arithmetic and about an abstract summation that is extensionally the mathematical sum; NumPy's pairwise "
                    "order only matters for rounding and is covered by the bit-exact runs",
@@ -160,8 +197,21 @@ class C20(Check):
         o = run_case(case); o.update(run_first(case))
         return o
 
+    def on_exception(self, case, obs):
+        if case["metric"] not in MODELLED:
+            # scipy rejects some inputs for data-dependent metrics (too few points for a covariance matrix, ...): not a statement about the indicator
+            from scipy.spatial.distance import pdist
+            try:
+                with np.errstate(all="ignore"):
+                    pdist(np.array(case["F"], dtype=float), metric=case["metric"])
+            except Exception:
+                return None
+        return "implementation raised " + obs["exception"]
+
     def oracle(self, case, obs):
         S = float.fromhex(obs["S"])
+        if case["metric"] not in MODELLED and ref_spacing(decarr(obs["Xn"], 2), case["metric"]) is None:
+            return None          # the metric is undefined (NaN / inf distances) on these points
         if not obs["frame"]:
             return "C20-frame: the caller's array was modified"
         if not (S >= 0) or S != S:
@@ -201,6 +251,8 @@ class C20(Check):
     def coq(self, case, obs):
         F = np.array(case["F"], dtype=float)
         Xn = decarr(obs["Xn"], 2); D = decarr(obs["D"], 2)
+        if case["metric"] not in MODELLED and not np.all(np.isfinite(D)):
+            return None          # the metric is undefined on these points (0/0): NumPy's NaN ordering in partition is outside the model
         parts = []
         if case["norm"] == "none":
             fn = cfmat(F)
